@@ -82,6 +82,22 @@ macro_rules! curve {
                 "id" => { let p = pt(0, rg)?; $put(p, rg) }
                 "add" => { let p = pt(0, rg)?; let q = pt(1, rg)?; $put(p + q, rg) }
                 "sub" => { let p = pt(0, rg)?; let q = pt(1, rg)?; $put(p - q, rg) }
+                "add_vr" => { let p = pt(0, rg)?; let q = pt(1, rg)?; $put(p + &q, rg) }
+                "add_rv" => { let p = pt(0, rg)?; let q = pt(1, rg)?; $put(&p + q, rg) }
+                "sub_vr" => { let p = pt(0, rg)?; let q = pt(1, rg)?; $put(p - &q, rg) }
+                "sub_rv" => { let p = pt(0, rg)?; let q = pt(1, rg)?; $put(&p - q, rg) }
+                "addav" => { let mut p = pt(0, rg)?; let q = pt(1, rg)?; p += q; $put(p, rg) }
+                "subav" => { let mut p = pt(0, rg)?; let q = pt(1, rg)?; p -= q; $put(p, rg) }
+                "negr" => { let p = pt(0, rg)?; $put(-&p, rg) }
+                "mul_vr" => { let p = pt(0, rg)?; let s = sc(1)?; $put(p * &s, rg) }
+                "mul_rv" => { let p = pt(0, rg)?; let s = sc(1)?; $put(&p * s, rg) }
+                "mul_rr" => { let p = pt(0, rg)?; let s = sc(1)?; $put(&p * &s, rg) }
+                "smul_vv" => { let p = pt(0, rg)?; let s = sc(1)?; $put(s * p, rg) }
+                "smul_vr" => { let p = pt(0, rg)?; let s = sc(1)?; $put(s * &p, rg) }
+                "smul_rv" => { let p = pt(0, rg)?; let s = sc(1)?; $put(&s * p, rg) }
+                "mulav" => { let mut p = pt(0, rg)?; let s = sc(1)?; p *= s; $put(p, rg) }
+                "mulu64r" => { let p = pt(0, rg)?; let n = u64a(arg(a, 1)?)?; $put(&p * n, rg) }
+                "u64mulr" => { let p = pt(0, rg)?; let n = u64a(arg(a, 1)?)?; $put(n * &p, rg) }
                 "addr" => { let p = pt(0, rg)?; let q = pt(1, rg)?; $put(&p + &q, rg) }
                 "subr" => { let p = pt(0, rg)?; let q = pt(1, rg)?; $put(&p - &q, rg) }
                 "adda" => { let mut p = pt(0, rg)?; let q = pt(1, rg)?; p += &q; $put(p, rg) }
